@@ -19,7 +19,11 @@ def scenarios(tier):
     mon = ("c04",)
     return [
         Scenario("c04-eonly", World, dict(prop="C04", monitors=mon, regions=["R"], emax=2 if q else 3),
-                 BASE + [("ZMOVE", 2)], max_states=150000 if q else 2000000),
+                 BASE + [("ZMOVE", 2), ("ESET", "2")], max_states=150000 if q else 2000000),
+        Scenario("c04-arcs", World, dict(prop="C04", monitors=mon, regions=["R"], emax=2, key_depth=True),
+                 [("TRAVEL", "O1"), ("TRAVEL", "O2"), ("TRAVEL", "I1"), ("PRINT", "O1"), ("ARC", "under", "E"),
+                  ("ARC", "cross", "E"), ("ARC", "into", "E"), ("ARC", "clear", "E"), ("RETRACT",), ("RECOVER",), ("ESET0",)],
+                 max_states=150000 if q else 2000000, note="printing arcs (G2/G3 with an E word) clear of, across and into the region"),
         Scenario("c04-firmware", World, dict(prop="C04", monitors=mon, regions=["R", "D"], emax=2),
                  [e for e in BASE if e[0] not in ("RETRACT", "RECOVER")] + [("FWRETRACT",), ("FWRECOVER",)],
                  max_states=150000 if q else 2000000),
